@@ -819,6 +819,13 @@ def gen_recursion_shapes(rng, thorough):
         '#define obj (1)\n#define f(x) <x>\n#define h f\nh obj\nh (2)\n',
         '#define str(x) #x\n#define xstr(x) str(x)\n#define T U\n#define U T\nstr(T) xstr(T) xstr(U)\n',
     ]
+    # the NAME of a function-like macro comes out of an object-like macro while its `(...)` stands in the source: the hide set of
+    # the result is the intersection of the name's and the `)`'s hide sets (the latter empty here), so the outer macro is
+    # expanded again inside the body (6.10.3.4p2 only forbids the nested replacement of a macro being replaced)
+    for n in (1, 2, 3):
+        for body in itertools.product(('x', 'O', 'F', 'G'), repeat=n):
+            for call in ('O(1)', 'O(1)(2) G (3)'):
+                fl.append('#define O F\n#define G O\n#define F(x) [' + ' '.join(body) + ']\n' + call + '\n')
     return out + fl
 
 def gen_fn_shapes(rng, thorough):
@@ -1529,6 +1536,7 @@ def search(ctx, broken, corr):
     first = corpus_cases() + [('search', t) for t in BATTERY] + [('search', src) for _, src, _ in STD_EXAMPLES]
     first += [('search', t) for t in gen_chain_grid(rng, False)]
     first += [('search', t) for t in gen_operand_grid(False)] + [('search', t) for t in gen_strz_grid(rng, False)]
+    first += [('search', t) for t in gen_recursion_shapes(rng, False)] + [('search', t) for t in gen_fn_shapes(rng, False)]
     for rnd in range(7):
         if rnd == 0:
             tagged = first
